@@ -264,7 +264,7 @@ func (c *Ctx) WriteEvidence(rule string, assumptions []string, realStub map[stri
 	defer e.mu.Unlock()
 	wall := time.Since(c.Start).Seconds()
 	siteTable := map[string]any{}
-	var blind []string
+	blind := []string{}
 	names := make([]string, 0, len(e.Sites))
 	for k := range e.Sites {
 		names = append(names, k)
